@@ -50,6 +50,7 @@ EXTRA_SNIPPETS = [
     # a member of an `in` snapshot whose == raises for foreign types; the test itself passes (the search stops at the first match)
     ("in_member_raises", "    class W:\n        def __eq__(self, o):\n            if not isinstance(o, W):\n                raise TypeError('no')\n            return True\n        def __repr__(self):\n            return 'W()'\n    assert 1 in snapshot([1, W()])"),
     ("in_member_raises_first", "    class W:\n        def __eq__(self, o):\n            if not isinstance(o, W):\n                raise TypeError('no')\n            return True\n        def __repr__(self):\n            return 'W()'\n    assert W() in snapshot([W(), 1])"),
+    ("in_tuple_member_raises", "    class W:\n        def __eq__(self, o):\n            if not isinstance(o, W):\n                raise TypeError('no')\n            return True\n        def __hash__(self):\n            return 1\n        def __repr__(self):\n            return 'W()'\n    assert 1 in snapshot((1, W()))"),
     # [key] on a snapshot whose value is not written as a dict display: the test fails, the session must still finish
     ("getitem_nondisplay", "    try:\n        assert snapshot(dict(a=1))['a'] == 1\n    except AssertionError:\n        pass"),
     ("getitem_list", "    try:\n        assert snapshot([1, 2])[0] == 1\n    except Exception:\n        pass"),
@@ -75,6 +76,8 @@ def gen_prog(rng, i):
     src = prog["source"]
     for k, (name, body) in enumerate(extras):
         src += f"\n\ndef test_x{k}_{name}():\n{body}\n"
+    if i % 6 == 4:
+        src = "\ufeff" + src            # the file starts with a UTF-8 byte order mark
     prog["source"] = src
     prog["extras"] = [e[0] for e in extras]
     prog["flags"] = rng.choice(proggen.flag_subsets())
